@@ -68,6 +68,15 @@ impl CommandDefinition {
             quote! { #fn_call? }
         };
 
+        // Only a query has a response. The value a command handler may return is dropped,
+        // otherwise it would be sent without a terminator.
+        let write_response = if self.command.is_query() {
+            quote! { result.write_response(response).await?; }
+        }
+        else {
+            quote! { let _ = result; }
+        };
+
         quote! {
             #command_id => {
                 if args.len() != #arg_count {
@@ -75,7 +84,7 @@ impl CommandDefinition {
                 }
                 else {
                     let result = #fn_call;
-                    result.write_response(response).await?;
+                    #write_response
                     Ok(())
                 }
             }
